@@ -71,19 +71,14 @@ def gen_cases(ctx):
                     if sent is not None:
                         frames.append((0xBEEF if link == 'tcp' else None, sent, bytes([3, 0, 0, 0, 1])))
                 cases.append((link, tuple(units), None, tuple(frames)))
-    n = 150 if ctx.quick() else 3000
+    n = 600 if ctx.quick() else 6000
     for _ in range(n):
         cases.append(srv.gen_session(r, 'rtu', big_ok=False))
     return cases
 
 
 def run(ctx):
-    ctx.translate(['Consts.v', 'AuthzTable.v'])
-    models_ok = ctx.build_models(srv.MODULES)
-    ctx.prove()
-    if ctx.tier == 'thorough':
-        ctx.coqchk()
-    if not ctx.build_harness() or not models_ok:
+    if not srv.prepare(ctx):
         return
     if ctx.replay and 'cases' in ctx.replay:
         cases = [srv.case_from_json(c) for c in ctx.replay['cases']]
@@ -92,7 +87,7 @@ def run(ctx):
     impl, both, n_spec, n_model = srv.compare(ctx, cases, 'all', 'multidrop', 'replies and per-unit handler log')
     for link in ('rtu', 'tcp'):
         idx = [k for k, c in enumerate(cases) if c[0] == link]
-        bad = [k for k in idx if impl[k] != both[k][1] or impl[k] != both[k][0]]
+        bad = [k for k in idx if srv.differs(impl[k], both[k], 'all')]
         ctx.oblige(f'correspondence:replies-and-unit-logs:{link}', not bad, f'{len(bad)} of {len(idx)} sessions differ')
     # implementation only, straight from the statement: silent unless addressed; broadcast never answered
     st = {'frames:to-configured-unit': 0, 'frames:to-unconfigured-unit': 0, 'frames:broadcast': 0, 'broadcast-write-calls': 0,
